@@ -843,7 +843,8 @@ def rdOp : Rd OpDecl := do
   let bp ← rdOptStr
   let tp ← rdOptStr
   let zone ← rdStr
-  let counts ← rdTrees
+  -- `str(axis.count)` of the three axes: the numbers come from C01–C04, their text is printed here
+  let counts ← natAtoms <$> rdList rdNat
   let simple ← rdBool
   let wg ← rdRepeat rdWire 12
   let edges ← rdRepeat rdEdge 12
